@@ -20,7 +20,7 @@ Definition ser_err (e : perr) : list Z :=
 Fixpoint ser_tree (t : tree) : list Z :=
   match t with
   | Leaf k => 10 :: ser_tok k
-  | ErrLeaf e dropped => 11 :: ser_err e ++ zn (length dropped) :: flat_map ser_tok dropped
+  | ErrLeaf e dropped lo hi => 11 :: lo :: hi :: ser_err e ++ zn (length dropped) :: flat_map ser_tok dropped
   | Node p kids => 12 :: zn p :: zn (length kids) ::
                    (fix go (l : list tree) : list Z := match l with [] => [] | x :: r => ser_tree x ++ go r end) kids
   end.
@@ -31,18 +31,23 @@ Definition ser_result (r : result) : list Z :=
   | RPanic => [22]
   | RFuel => [23]
   end.
-(* the observable event log: pulls as -(i+1), user actions as their production index (+1000000 when failing) *)
+(* the observable event log, three numbers per event: pulls as (-(i+1),0,0), user actions as
+   (production index, span start, span end), failing actions as (1000000 + index, 0, 0) *)
 Definition acts_of (tr : list event) : list Z :=
-  flat_map (fun e => match e with Act p => [zn p] | ActFail p _ => [zn p + 1000000] | Pull i => [- (zn i + 1)] | _ => [] end) (rev tr).
+  flat_map (fun e => match e with
+                     | Act p lo hi => [zn p; lo; hi]
+                     | ActFail p _ => [zn p + 1000000; 0; 0]
+                     | Pull i => [- (zn i + 1); 0; 0]
+                     | _ => [] end) (rev tr).
 Definition ser_run (r : result * pst) : list Z :=
   let '(res, s) := r in
-  ser_result res ++ zn (npulled s) :: (let a := acts_of (trace s) in zn (length a) :: a).
+  ser_result res ++ zn (npulled s) :: (let a := acts_of (trace s) in zn (Nat.div (length a) 3) :: a).
 
 (* the id of the leftmost real leaf below a list of trees (0 if none) *)
 Fixpoint first_leaf (t : tree) : option N :=
   match t with
   | Leaf k => Some (tk_id k)
-  | ErrLeaf _ _ => None
+  | ErrLeaf _ _ _ _ => None
   | Node _ kids => (fix go (l : list tree) : option N :=
                       match l with [] => None | x :: r => match first_leaf x with Some i => Some i | None => go r end end) kids
   end.
